@@ -103,8 +103,12 @@ type submitEngine struct {
 }
 
 func (g *submitEngine) fail(c *submitCase, upto int, sig, detail string) {
+	prop := "C09"
+	if strings.HasPrefix(sig, "submit-sct") {
+		prop = "C02" // the SCT clauses: an SCT only for a published leaf, verifying under the log key (C09's check counts them too)
+	}
 	if g.quiet {
-		g.fails = append(g.fails, OracleFailure{Property: "C09", Signature: sig, Detail: detail})
+		g.fails = append(g.fails, OracleFailure{Property: prop, Signature: sig, Detail: detail})
 		return
 	}
 	g.stats.Count("oracle/" + sig)
@@ -112,7 +116,7 @@ func (g *submitEngine) fail(c *submitCase, upto int, sig, detail string) {
 	if g.seen[sig] > 2 {
 		return
 	}
-	g.fails = append(g.fails, OracleFailure{Property: "C09", Signature: sig, Detail: detail, Case: submitMinimise(c, upto)})
+	g.fails = append(g.fails, OracleFailure{Property: prop, Signature: sig, Detail: detail, Case: submitMinimise(c, upto)})
 }
 
 // submitMinimise keeps the root operations before op `upto`, and that op: submissions are
